@@ -116,6 +116,75 @@ class Fn:
                 self.const_init[v] = ds[0]
         self._env = None            # vid -> text while an inlined helper predicate is rendered in its caller's terms
 
+    def render_walk(self, n):
+        """resolved rendering in which `the element k places from the current position of a loop over array A` is spelled the same
+        whether the loop walks a pointer (`o[1]`, `*o`) or an index (`A[i + 1]`, `A[i]`): A@[+k]"""
+        old, self._walk = getattr(self, '_walk', False), True
+        try:
+            return self.render(n, 0, True)
+        finally:
+            self._walk = old
+
+    def _walkers(self):
+        if getattr(self, '_wk', None) is None:
+            wk = {}
+            decl = {}
+            for _, e in self.elements():
+                if e['k'] == 'DeclStmt':
+                    for d in e.get('decls', []):
+                        if d.get('vid') is not None:
+                            decl[d['vid']] = d
+            for p_ in self.f.get('params') or []:
+                decl.setdefault(p_['vid'], p_)
+            for _, e in self.elements():
+                if (e['k'] == 'UnaryOperator' and e['op'] in ('pre++', 'post++', 'pre--', 'post--')) or \
+                        (e['k'] == 'CompoundAssignOperator' and e['op'] in ('+=', '-=')):
+                    x = self.strip_all_casts(e['c'][0])
+                    if x['k'] == 'DeclRefExpr' and x.get('vid') in decl:
+                        d = decl[x['vid']]
+                        base = None
+                        if '*' in (d.get('t') or '') and d.get('init') is not None:
+                            st = [self.strip_all_casts(d['init'])]
+                            while st and base is None:
+                                y = st.pop(0)
+                                if y['k'] in ('MemberExpr', 'DeclRefExpr') and '*' in (y.get('t') or ''):
+                                    base = self.render(y, 0, True)
+                                elif y['k'] == 'BinaryOperator' and y['op'] in ('+', '-'):
+                                    st.extend(self.strip_all_casts(z) for z in y['c'])
+                        wk[x['vid']] = base      # None for integer counters
+            self._wk = wk
+        return self._wk
+
+    def _walk_elem(self, base, idx):
+        wk = self._walkers()
+        b = self.strip_all_casts(base)
+        k = 0
+
+        def const_of(x):
+            x = self.strip_all_casts(x)
+            return x.get('v')
+        # pointer walker: p[k], *p, *(p + k)
+        if b['k'] == 'BinaryOperator' and b['op'] in ('+', '-') and idx is None:
+            l, r_ = self.strip_all_casts(b['c'][0]), b['c'][1]
+            if l['k'] == 'DeclRefExpr' and wk.get(l.get('vid')) and const_of(r_) is not None:
+                return '%s@[%+d]' % (wk[l['vid']], const_of(r_) if b['op'] == '+' else -const_of(r_))
+        if b['k'] == 'DeclRefExpr' and wk.get(b.get('vid')):
+            if idx is None:
+                return '%s@[+0]' % wk[b['vid']]
+            if const_of(idx) is not None:
+                return '%s@[%+d]' % (wk[b['vid']], const_of(idx))
+            return None
+        # index walker: A[i], A[i + k]
+        if idx is not None and b['k'] in ('MemberExpr', 'DeclRefExpr') and b.get('vid') not in wk:
+            i_ = self.strip_all_casts(idx)
+            if i_['k'] == 'DeclRefExpr' and i_.get('vid') in wk and wk[i_['vid']] is None:
+                return '%s@[+0]' % self.render(b, 0, True)
+            if i_['k'] == 'BinaryOperator' and i_['op'] in ('+', '-'):
+                l = self.strip_all_casts(i_['c'][0])
+                if l['k'] == 'DeclRefExpr' and l.get('vid') in wk and wk[l['vid']] is None and const_of(i_['c'][1]) is not None:
+                    return '%s@[%+d]' % (self.render(b, 0, True), const_of(i_['c'][1]) if i_['op'] == '+' else -const_of(i_['c'][1]))
+        return None
+
     def render_in(self, n, env, resolve=False):
         """render n with the parameters in env (vid -> caller-side text) substituted"""
         old, self._env = self._env, env
@@ -322,6 +391,10 @@ class Fn:
             return '"%s"' % n.get('s', '')
         if k in ('BinaryOperator', 'CompoundAssignOperator'):
             return '(%s %s %s)' % (r(c[0]), n['op'], r(c[1]))
+        if k == 'UnaryOperator' and n['op'] == '*' and getattr(self, '_walk', False):
+            w = self._walk_elem(c[0], None)
+            if w:
+                return w
         if k == 'UnaryOperator':
             op = n['op']
             if op.startswith('post'):
@@ -330,7 +403,12 @@ class Fn:
                 return '%s%s' % (op[3:], r(c[0]))
             return '%s%s' % (op, r(c[0]))
         if k == 'ArraySubscriptExpr':
+            if getattr(self, '_walk', False):
+                w = self._walk_elem(c[0], c[1])
+                if w:
+                    return w
             return '%s[%s]' % (r(c[0]), r(c[1]))
+
         if k == 'ConditionalOperator':
             return '(%s ? %s : %s)' % (r(c[0]), r(c[1]), r(c[2]))
         if k in ('CallExpr', 'CXXMemberCallExpr', 'CXXOperatorCallExpr'):
